@@ -31,7 +31,8 @@ RULE = (
     "operation's expression (the menu includes expressions only the current engine supports); (ii) equal columns; (iii) "
     "both trees are processed by the real Processor and executed, each compared with the reference and with each "
     "other, and the call is repeated on the already processed base tree (transfers holding payloads); (iv) engine "
-    "placement by per-engine operation counts; non-trivial = backtracking changed the tree upstream "
+    "placement by per-engine operation counts; plus a sub-space whose join partner shares a NON-join column with the "
+    "base tree (reference undefined): the backtracking call is compared with the same call with backtrack=False; non-trivial = backtracking changed the tree upstream "
     "of the root; distinct = distinct (base tree, call) digests"
 )
 
@@ -84,6 +85,27 @@ JOINS = (
 )
 
 
+# "shadow" sub-space: the join partner Kn shares the NON-key column n with the base trees (n is then not a
+# join column) with different values.  Which operand's n the joined relation carries is not documented, so
+# the reference does not evaluate these joins; the property itself is relative, though, and is judged
+# differentially: the call with backtracking must return the rows of the same call with backtrack=False.
+SHADOW_BASE = (
+    ("xfer", "s"),
+    ("xfer", "e1"),
+    ("calc", "n", spaces.NEG_A),
+    ("sel", ("lt", R("n"), L(-1))),
+    ("calc", "z", ("add", R("n"), R("b"))),
+    S((R("n"), True), (R("c"), True)),
+    ("proj", ("a", "n")),
+)
+SHADOW_JOINS = tuple(
+    # (with the operands swapped the *tree* would be the fixed operand and the options would act on Kn)
+    pe(("join", ("Kn",), pred, False), "s", bt, tr, False)
+    for pred in (None, ("gt", R("n"), R("a")))
+    for bt, tr in ((True, False), (True, True), (False, True))
+)
+
+
 def pe_ops():
     out = []
     for op in MENU:
@@ -103,6 +125,7 @@ def world():
     leaves = w.leaves + (
         LeafSpec("Kc", "s", ("a", "c"), ((1, 91), (2, 92), (2, 93))),
         LeafSpec("Kx", "s", ("x", "d"), ((-1, 7), (-2, 8), (-2, 9))),  # x: a key column the base trees *calculate*
+        LeafSpec("Kn", "s", ("a", "n"), ((1, 5), (2, -6), (2, 7), (3, -3))),  # n: a NON-key column the base trees calculate
     )
     return World(engines=w.engines, leaves=leaves)
 
@@ -152,12 +175,15 @@ class C03(Check):
     pid = "C03"
 
     def __init__(self):
-        self.pe_set = set(pe_ops())
+        self.pe_set = set(pe_ops()) | set(SHADOW_JOINS)
 
     def subspaces(self, tier):
         w = world()
         d = 4 if tier == "quick" else 5
-        return [SubSpace(f"multi/base+pe/d{d}", w, ("X", "L"), BASE + pe_ops(), d)]
+        return [
+            SubSpace(f"multi/base+pe/d{d}", w, ("X", "L"), BASE + pe_ops(), d),
+            SubSpace(f"multi/shadow/d{d + 1}", w, ("X", "L"), SHADOW_BASE + SHADOW_JOINS, d + 1),
+        ]
 
     def judge(self, tr):
         if tr.op not in self.pe_set:
@@ -171,7 +197,10 @@ class C03(Check):
             tr.count("preferred_is_current_skipped")
             return False
         if tr.ooc:
-            tr.count("out_of_contract")
+            if inner[0] == "join" and bt:
+                self.judge_differential(tr, inner, pref, do_tr, req)
+            else:
+                tr.count("out_of_contract")
             return False
         ctx = tr.ctx
         # the same call at the root with no preferred engine
@@ -300,6 +329,40 @@ class C03(Check):
             if canon_bag(got_plain) != canon_bag(got):
                 tr.violation("rows-vs-plain", f"preferred-engine result {got[:6]} differs from root application {got_plain[:6]}")
         return False
+
+
+def _judge_differential(self, tr, inner, pref, do_tr, req):
+    """Join whose partner shadows a non-join column (reference undefined): backtracking must not change the
+    rows relative to the same call with backtrack=False, transfer=True."""
+    ctx, parent = tr.ctx, tr.parent_rel
+    try:
+        plain = ctx.apply(parent, pe(inner, pref, False, True, False))
+        want = evaluate(ctx, plain)
+    except Exception:  # noqa: BLE001
+        tr.count("out_of_contract")
+        return
+    tr.count("differential_judged_calls")
+    tr.outcome = (walk.key(parent), tr.op)
+    if tr.rel is None:
+        if isinstance(tr.exc, EngineError) and not do_tr:
+            tr.count("join_engine_error_no_transfer")
+        else:
+            tr.violation("valid-call-rejected", f"backtrack=False succeeds but the backtracking call raised {type(tr.exc).__name__}: {str(tr.exc)[:200]}")
+        return
+    tr.nontrivial = op_keys_in(parent, pref) != op_keys_in(tr.rel, pref)
+    try:
+        got = evaluate(ctx, tr.rel)
+    except Exception as e:  # noqa: BLE001
+        tr.violation("evaluation-raised", f"{type(e).__name__}: {str(e)[:200]}; result={tr.rel}")
+        return
+    if canon_bag(got) != canon_bag(want):
+        tr.violation(
+            "rows-vs-no-backtracking",
+            f"backtracking changed the content: got {got[:6]}, the same call with backtrack=False gives {want[:6]}; result={tr.rel}",
+        )
+
+
+C03.judge_differential = _judge_differential
 
 
 def run(tier, seed):
